@@ -148,9 +148,9 @@ End Mode.
 (* ------------------------------------------------------------------------- satisfiability *)
 (* let s0 = {a | default = 1, b = a + 1} in let s1 = {a = 5} in let s2 = s0 & s1 in let s3 = s2 & s0 in .. *)
 Definition example_history : history :=
-  [ SLit [(0%N, {| fprio := PBot; fbody := Some (Num 1); fdyn := false; fctrs := [] |});
-          (1%N, {| fprio := PNeut; fbody := Some (Add (Var 0%N) (Num 1)); fdyn := false; fctrs := [] |})];
-    SLit [(0%N, {| fprio := PNeut; fbody := Some (Num 5); fdyn := false; fctrs := [] |})];
+  [ SLit [(0%N, {| fprio := PBot; fbody := Some (STm (Num 1)); fdyn := false; fctrs := [] |});
+          (1%N, {| fprio := PNeut; fbody := Some (STm (Add (Var 0%N) (Num 1))); fdyn := false; fctrs := [] |})];
+    SLit [(0%N, {| fprio := PNeut; fbody := Some (STm (Num 5)); fdyn := false; fctrs := [] |})];
     SMerge 0 1;
     SMerge 2 0 ].
 
